@@ -11,7 +11,7 @@ def run(c):
   p = subprocess.run(cmd, shell=True, capture_output=True, text=True)
   last = [l for l in p.stdout.splitlines() if l.startswith(('property', 'VIOLATION', 'KNOWN', 'UNDECIDED', 'CHECKER'))]
   return c['property_id'], p.returncode, last
-with cf.ThreadPoolExecutor(4) as ex:
+with cf.ThreadPoolExecutor(int(__import__("os").environ.get("RUN_ALL_PAR", "4"))) as ex:
   for pid, rc, last in ex.map(run, man['checks']):
     print(pid, 'exit', rc, '|', ' | '.join(last)[:300])
 PY
